@@ -278,7 +278,7 @@ impl Check for C18 {
                     format!("check_timelocks() says mixed={} but path analysis says mixed={} for {}", lib_mixed, mixed, text),
                 );
             }
-            if !has_const(&p) {
+            {
                 let mut unsafe_assign = false;
                 let ats = atoms(&p);
                 for_all(&ats, &mut |t| {
